@@ -60,6 +60,11 @@ impl Check for RouteCheck {
                 ops.push(json!({"at": t.saturating_sub(rng.range(0, 300)), "op": "lag", "p": rng.below(8), "new": rng.chance(1, 2), "for_ms": rng.range(2500, 7000)}));
             }
             ops.push(op);
+            if j == 0 && rng.chance(1, 2) {
+                // the same migration delivered again under a newer epoch, after the handshake and
+                // while the scan is still running (a rebalance changes nothing but the epoch)
+                ops.push(json!({"at": t + rng.range(3000, 7000), "op": "balance"}));
+            }
             t += rng.range(1800, 5000);
         }
         let all_slots = tier == Tier::Thorough && rng.chance(1, 20);
@@ -643,6 +648,17 @@ async fn run_routing(prop: &'static str, plan: &Value, want_sample: bool) -> Run
                                 continue;
                             }
                             rec.probe("c14_src_or_dst_migrating_slot");
+                        }
+                        // source and destination each pointing at the other = nobody serves the slot. Both
+                        // snapshots are stable over the whole round, so this is not a matter of sampling time.
+                        if let Some((srcp, dstp)) = snap.mig.get(s) {
+                            if start == srcp && &adv == dstp && stable.get(dstp) == Some(&true) {
+                                if let Some(ds) = snaps.get(dstp) {
+                                    if ds.nodes.get(s) == Some(srcp) {
+                                        rec.violate(Violation::new("C14", "migrating-slot-served-by-nobody", format!("slot {}: source {} advertises it at the destination {} while the destination advertises it at the source (both unchanged over the round)", s, srcp, dstp)));
+                                    }
+                                }
+                            }
                         }
                         if adv == *start {
                             if !executed_locally {
